@@ -57,7 +57,36 @@ def main(tier):
             continue
         for (a, b) in idx.cfg(k).back_edges():
             loops.append((k, b))
+    FINITE = ("core::slice::iter::Iter<", "core::slice::iter::IterMut<", "core::ops::range::Range<usize>", "core::ops::range::Range<u", "core::ops::range::RangeInclusive<u",
+              "alloc::vec::into_iter::IntoIter<", "core::str::iter::Chars<", "core::str::iter::CharIndices<", "core::str::iter::Lines<", "core::option::IntoIter<", "core::array::iter::IntoIter<")
+    ADAPT = ("core::iter::adapters::rev::Rev<", "core::iter::adapters::map::Map<", "core::iter::adapters::enumerate::Enumerate<", "core::iter::adapters::take_while::TakeWhile<",
+             "core::iter::adapters::skip::Skip<", "core::iter::adapters::take::Take<", "core::iter::adapters::filter::Filter<", "core::iter::adapters::zip::Zip<", "core::iter::adapters::cloned::Cloned<",
+             "core::iter::adapters::copied::Copied<", "core::iter::adapters::peekable::Peekable<")
+
+    def finite_iter(tys):
+        t = tys
+        while any(t.startswith(a) for a in ADAPT):
+            t = t[t.index("<") + 1:]
+        return any(t.startswith(f) for f in FINITE)
+
+    def driven_by_finite_iterator(k, head):
+        """The loop body polls `next()` of a std iterator over a finite collection/range (each poll consumes one element): it terminates."""
+        f = prog.fns[k]
+        cfg = idx.cfg(k)
+        body = {b for b in cfg.reach if cfg.dominates(head, b) and head in cfg.reachable_from(b)}
+        for bi, t in prog.calls(f):
+            if bi in body and rules.callee_name(t["callee"]).endswith("Iterator>::next") or (bi in body and rules.callee_name(t["callee"]).endswith("::next")):
+                targs = [prog.tys(a) for a in (t["callee"].get("args") or []) if isinstance(a, int)]
+                name = rules.callee_name(t["callee"])
+                m = name[1:name.index(" as ")] if name.startswith("<") and " as " in name else (targs[0] if targs else "")
+                if finite_iter(m) or (targs and finite_iter(targs[0])):
+                    return True
+        return False
+
     for (k, head) in loops:
+        if driven_by_finite_iterator(k, head):
+            run.ob("termination", "loop in %s is driven by a std iterator over a finite collection/range" % k, True, nontrivial=("loop-finite", k))
+            continue
         # a loop is accounted for when E2 interpreted its function in every explored case with a decided exit (executed to a decided exit, or replaced by a
         # verified chain-walk summary whose chain is finite by J3; remove_subtree: generic-iteration analysis, C04), or when it belongs to the pretty printer
         by_e2 = k in interpreted and not e2_undecided
